@@ -365,6 +365,14 @@ def replay(kernel, sig):
                 dev = (smp - cc[:, None, :D]).abs().max()
                 res["max_sample_distance_from_own_mean"] = float(dev)
                 bad_sampling = float(dev) > 5.0
+                # spread: with log_std = 1 / -1 the empirical standard deviation of 4000 draws is e / 1/e within 10 %
+                c2 = torch.zeros(2, 2 * D)
+                c2[0, D:] = 1.0
+                c2[1, D:] = -1.0
+                sm2 = d.sample(4000, context=c2).reshape(2, 4000, D)
+                ratio = sm2.std(dim=1) / torch.exp(c2[:, D:])
+                res["sample_std_over_declared_std"] = [float(ratio.min()), float(ratio.max())]
+                bad_sampling = bad_sampling or float((ratio - 1).abs().max()) > 0.1
             res["reproduced"] = abs(integral - expect) > 1e-5 * max(1.0, expect) or bad_mean or bad_sampling
         elif kernel == "MixtureOfGaussiansMADE":
             Fn, M = sig["F"], sig["M"]
